@@ -14,7 +14,10 @@ use std::sync::OnceLock;
 
 pub struct RealCode {
     pub name: &'static str,
-    pub h: SparseMatrix,
+    /// behind a mutex so that the shared table does not require `SparseMatrix: Sync`
+    /// (a change to the library that adds interior mutability must not stop the harness from building)
+    h: std::sync::Mutex<SparseMatrix>,
+    pub n: usize,
     pub rows: Vec<Vec<usize>>,
     pub k: usize,
     /// positions that are not transmitted (LLR exactly 0)
@@ -62,7 +65,7 @@ fn build(name: &'static str) -> RealCode {
             for c in &codewords {
                 assert!(syndrome_rows_ok(&rows, c), "own encoder produced a non-codeword");
             }
-            RealCode { name, rows, k, punctured: vec![false; n], codewords, h }
+            RealCode { name, rows, k, punctured: vec![false; n], codewords, n, h: std::sync::Mutex::new(h) }
         }
         _ => {
             let rate = if name == "ar4ja-1/2-k1024" { AR4JARate::R1_2 } else { AR4JARate::R4_5 };
@@ -90,8 +93,14 @@ fn build(name: &'static str) -> RealCode {
                 codewords.push(c);
             }
             let rows = sorted_rows(&h);
-            RealCode { name, rows, k, punctured, codewords, h }
+            RealCode { name, rows, k, punctured, codewords, n, h: std::sync::Mutex::new(h) }
         }
+    }
+}
+
+impl RealCode {
+    pub fn h(&self) -> SparseMatrix {
+        self.h.lock().unwrap().clone()
     }
 }
 
@@ -147,7 +156,7 @@ pub fn llrs_for(rc: &RealCode, case: &RcCase, frame: usize) -> Vec<f64> {
 }
 
 fn validity(name: &str, rc: &RealCode, res: &Result<DecoderOutput, DecoderOutput>, llrs: &[f64], limit: usize) -> Check {
-    let n = rc.h.num_cols();
+    let n = rc.n;
     let sign: Vec<u8> = llrs.iter().map(|&x| u8::from(x <= 0.0)).collect();
     let sign_ok = syndrome_rows_ok(&rc.rows, &sign);
     let f = |key: &str, msg: String| Err(Fail::new(key, format!("{name} on {}: {msg}", rc.name)));
@@ -186,7 +195,7 @@ pub fn check_c01(case: &RcCase, p: &mut Probe) -> Check {
     let mut fail = 0;
     for imp in factory_variants() {
         let name = imp.to_string();
-        let mut dec = build_factory(&imp, rc.h.clone());
+        let mut dec = build_factory(&imp, rc.h());
         let res = guarded(|| dec.decode(&llrs, case.limit)).map_err(|e| Fail::new("panic", format!("{name} on {}: decode panicked: {e}", rc.name)))?;
         validity(&name, rc, &res, &llrs, case.limit)?;
         match &res {
@@ -216,13 +225,13 @@ pub fn check_c10(case: &RcCase, p: &mut Probe) -> Check {
             continue;
         }
         let name = imp.to_string();
-        let mut reused = build_factory(imp, rc.h.clone());
+        let mut reused = build_factory(imp, rc.h());
         for fr in 0..case.frames.max(2) {
             let llrs = llrs_for(rc, case, fr);
             // alternate limits so that a limit-0 call follows an iterating one
             let limit = if fr % 2 == 1 { 0 } else { case.limit.max(1) };
             let got = guarded(|| reused.decode(&llrs, limit)).map_err(|e| Fail::new("panic", format!("{name}: reused decoder panicked: {e}")))?;
-            let mut fresh = build_factory(imp, rc.h.clone());
+            let mut fresh = build_factory(imp, rc.h());
             let want = fresh.decode(&llrs, limit);
             p.inner += 1;
             if got != want {
